@@ -62,3 +62,41 @@ Qed.
 
 Lemma zrange_In a b x : In x (zrange a b) <-> a <= x < b.
 Proof. unfold zrange. rewrite zrange_from_In. lia. Qed.
+
+(* ---- Python results: a value or one of the exceptions the modelled code can raise ---- *)
+Inductive pyexn := KeyError | ValueError | IndexError | TypeError | StopIteration | AttributeError
+                 | IncorrectSmiles | IncorrectSmarts | ValenceError | OtherError.
+Inductive pyres (A : Type) := Ok (a : A) | Err (e : pyexn).
+Arguments Ok {A} a.
+Arguments Err {A} e.
+
+Definition pyexn_eqb (a b : pyexn) : bool :=
+  match a, b with
+  | KeyError, KeyError | ValueError, ValueError | IndexError, IndexError | TypeError, TypeError
+  | StopIteration, StopIteration | AttributeError, AttributeError | IncorrectSmiles, IncorrectSmiles
+  | IncorrectSmarts, IncorrectSmarts | ValenceError, ValenceError | OtherError, OtherError => true
+  | _, _ => false
+  end.
+Definition pyres_eqb {A} (eq : A -> A -> bool) (x y : pyres A) : bool :=
+  match x, y with Ok a, Ok b => eq a b | Err a, Err b => pyexn_eqb a b | _, _ => false end.
+
+(* tuple.index / list.index: position of the first occurrence; None stands for ValueError *)
+Fixpoint index_from (x : Z) (l : list Z) (i : Z) : option Z :=
+  match l with
+  | [] => None
+  | y :: r => if Z.eqb x y then Some i else index_from x r (i + 1)
+  end.
+Definition index_of (l : list Z) (x : Z) : option Z := index_from x l 0.
+
+Fixpoint list_eqb {A} (eq : A -> A -> bool) (a b : list A) : bool :=
+  match a, b with
+  | [], [] => true
+  | x :: r, y :: s => eq x y && list_eqb eq r s
+  | _, _ => false
+  end.
+Definition option_eqb {A} (eq : A -> A -> bool) (a b : option A) : bool :=
+  match a, b with Some x, Some y => eq x y | None, None => true | _, _ => false end.
+
+(* indices of the failing cases of a correspondence batch *)
+Definition failing (cases : list (nat * bool)) : list nat :=
+  map fst (filter (fun c => negb (snd c)) cases).
